@@ -1,9 +1,23 @@
 import Driver.Lb
 import Driver.LbSpec
 import Driver.Pollh
+import Driver.Adapter
+import Driver.Closed
+import Driver.Stream
+import Driver.OpCache
+import Driver.Shard
+import Driver.Race
+import Netpoll.Gen.Consts
 def main (args : List String) : IO UInt32 := do
   match args with
   | ["lb"] => Driver.Lb.main; return 0
   | ["lbspec", ops, impl] => Driver.LbSpec.main ops impl; return 0
   | ["pollh", ops, impl] => Driver.Pollh.main ops impl; return 0
-  | _ => IO.eprintln "usage: npdriver lb | lbspec <ops> <impl> | pollh <ops> <impl>"; return 2
+  | ["opcache"] => Driver.OpCache.main; return 0
+  | ["stream"] => Driver.Stream.main; return 0
+  | ["closed"] => Driver.Closed.main; return 0
+  | ["race"] => Driver.Race.main; return 0
+  | ["adapter"] => Driver.Adapter.main Netpoll.Gen.c_block4k; return 0
+  | ["shard", trace] => Driver.Shard.main trace false
+  | ["shard", trace, "nomodel"] => Driver.Shard.main trace true
+  | _ => IO.eprintln "usage: npdriver lb | lbspec <ops> <impl> | pollh <ops> <impl> | shard <trace> [nomodel] | ..."; return 2
